@@ -51,14 +51,28 @@ func (ex *Exec) Query(o *Obligation, getModel bool) string {
 			}
 		}
 	}
+	// constants of error types (syscall.Errno values): distinct; Errno.Is matches only
+	// itself and four os-level sentinels (source of syscall.Errno.Is) – an assumption
+	var econsts []string
+	for n := range need {
+		if strings.HasPrefix(n, "econst!") {
+			econsts = append(econsts, n)
+		}
+	}
+	sort.Strings(econsts)
+	if len(econsts) > 0 {
+		for _, n := range []string{"sentinel!oserror.ErrPermission", "sentinel!oserror.ErrExist", "sentinel!oserror.ErrNotExist", "sentinel!errors.ErrUnsupported"} {
+			need[n] = true
+		}
+	}
 	var b strings.Builder
 	b.WriteString("(set-option :produce-models true)\n(set-logic ALL)\n")
-	usesErr := need["err_nil"] || need["is_"] || need["Err"]
+	usesErr := need["err_nil"] || need["is_"] || need["Err"] || len(econsts) > 0
 	for n := range need {
 		if d, ok := ex.defs[n]; ok && d.Sort == SErr {
 			usesErr = true
 		}
-		if strings.HasPrefix(n, "err!") {
+		if strings.HasPrefix(n, "sentinel!") {
 			usesErr = true
 		}
 	}
@@ -73,7 +87,7 @@ func (ex *Exec) Query(o *Obligation, getModel bool) string {
 		// sentinels
 		var sents []string
 		for n := range need {
-			if strings.HasPrefix(n, "err!") {
+			if strings.HasPrefix(n, "sentinel!") {
 				sents = append(sents, n)
 			}
 		}
@@ -85,8 +99,12 @@ func (ex *Exec) Query(o *Obligation, getModel bool) string {
 			// atomic errors (errors.New and the like): they match only themselves
 			fmt.Fprintf(&b, "(assert (forall ((e!q Err)) (! (= (is_ %s e!q) (= e!q %s)) :pattern ((is_ %s e!q)))))\n", s, s, s)
 		}
-		if len(sents) > 0 {
-			fmt.Fprintf(&b, "(assert (distinct err_nil %s))\n", strings.Join(sents, " "))
+		for _, e := range econsts {
+			fmt.Fprintf(&b, "(declare-const %s Err)\n", e)
+			fmt.Fprintf(&b, "(assert (forall ((e!q Err)) (! (=> (is_ %s e!q) (or (= e!q %s) (= e!q sentinel!oserror.ErrPermission) (= e!q sentinel!oserror.ErrExist) (= e!q sentinel!oserror.ErrNotExist) (= e!q sentinel!errors.ErrUnsupported))) :pattern ((is_ %s e!q)))))\n", e, e, e)
+		}
+		if len(sents)+len(econsts) > 0 {
+			fmt.Fprintf(&b, "(assert (distinct err_nil %s %s))\n", strings.Join(sents, " "), strings.Join(econsts, " "))
 		}
 	}
 	// uninterpreted / defined spec functions in declaration order
@@ -136,12 +154,46 @@ func (ex *Exec) Query(o *Obligation, getModel bool) string {
 			fmt.Fprintf(&b, "; axiom %s\n(assert %s)\n", ax.Name, ax.Smt)
 		}
 	}
+	// texts of the sentinels (from their errors.New initialisers) and the images of
+	// those constants under the pure string functions (computed with the real stdlib)
+	if need["errtext"] {
+		var ns []string
+		for n := range need {
+			if _, ok := ex.sentinelText[n]; ok {
+				ns = append(ns, n)
+			}
+		}
+		sort.Strings(ns)
+		for _, n := range ns {
+			txt := ex.sentinelText[n]
+			fmt.Fprintf(&b, "(assert (= (errtext %s) %s))\n", n, StrConst(txt).S)
+			if need["str_tolower"] {
+				fmt.Fprintf(&b, "(assert (= (str_tolower %s) %s))\n", StrConst(txt).S, StrConst(strings.ToLower(txt)).S)
+			}
+			if need["str_trimspace"] {
+				fmt.Fprintf(&b, "(assert (= (str_trimspace %s) %s))\n", StrConst(txt).S, StrConst(strings.TrimSpace(txt)).S)
+			}
+		}
+	}
 	for _, h := range o.Hyps {
 		fmt.Fprintf(&b, "(assert %s)\n", h.S)
 	}
 	fmt.Fprintf(&b, "; goal: %s\n(assert (not %s))\n(check-sat)\n", o.Name, o.Goal.S)
 	if getModel {
 		var vs []string
+		if o.Vars == nil {
+			o.Vars = map[string]*Term{}
+		}
+		// every scalar constant of the cone is part of the model handed to replay drivers
+		nsym := 0
+		for _, d := range ds {
+			if d.Body == "" && nsym < 60 && (isBV(d.Sort) || isFP(d.Sort) || d.Sort == SString || d.Sort == SBool || d.Sort == SInt) {
+				if _, dup := o.Vars["sym:"+d.Name]; !dup {
+					o.Vars["sym:"+d.Name] = &Term{S: d.Name, Sort: d.Sort}
+					nsym++
+				}
+			}
+		}
 		for _, k := range sortedKeys(o.Vars) {
 			vs = append(vs, o.Vars[k].S)
 		}
